@@ -185,9 +185,10 @@ class Repo:
 class Def:
     """One definition of a local name."""
 
-    __slots__ = ("kind", "name", "node", "init", "env", "proj", "extra")
+    __slots__ = ("kind", "name", "node", "init", "env", "proj", "extra", "orprojs")
 
-    def __init__(self, kind, name, node=None, init=None, env=None, proj=(), extra=None):
+    def __init__(self, kind, name, node=None, init=None, env=None, proj=(), extra=None, orprojs=None):
+        self.orprojs = orprojs  # or-pattern `A { x } | B { x }`: the other paths by which the same name is bound
         self.kind = kind  # param | let | bind | elem | closure
         self.name = name
         self.node = node
@@ -262,8 +263,11 @@ def pat_variants(p):
 
 
 def bind_pattern(env, pat, init, init_env, kind="let", node=None):
+    by_name = {}
     for name, proj in pat_bindings(pat):
-        env = env.bind(name, Def(kind, name, node=node, init=init, env=init_env, proj=proj))
+        by_name.setdefault(name, []).append(proj)
+    for name, projs in by_name.items():
+        env = env.bind(name, Def(kind, name, node=node, init=init, env=init_env, proj=projs[0], orprojs=projs[1:] or None))
     return env
 
 
@@ -571,6 +575,12 @@ def apply_proj(p, proj):
 
 
 def resolve_def(df, depth=0):
+    if df.orprojs:
+        outs = []
+        for pr in [df.proj] + list(df.orprojs):
+            d2 = Def(df.kind, df.name, node=df.node, init=df.init, env=df.env, proj=pr, extra=df.extra)
+            outs.append(resolve_def(d2, depth))
+        return mk_alt(outs, "or-pattern")
     if df.kind == "param":
         p = ("param", df.extra, df.name)
         return apply_proj(p, df.proj)
@@ -798,3 +808,78 @@ def stmt_of(node, pm):
             return cur
         cur = pm[id(cur)][0]
     return cur if cur["k"] in ("Local", "ExprStmt") else None
+
+
+# ---- delegation: `fn f(a, b) { g(a, b, true) }` -------------------------------------------------
+def delegate(repo, fn):
+    """If fn's whole body is one call to a function g of the same module (arguments: fn's own parameters, possibly behind & / * / a
+    transparent method, or literals), return (g, known) where known maps g's parameter names that receive a literal to that literal's
+    value (True / False / the literal text).  Rules written for fn then read g under `known` (see live_walk)."""
+    body = fn.body
+    if body.get("k") != "Block" or len(body.get("stmts", [])) != 1:
+        return None
+    st = body["stmts"][0]
+    e = st.get("expr") if st.get("k") == "ExprStmt" and not st.get("semi") else None
+    if e is None and st.get("k") == "ExprStmt" and st.get("expr", {}).get("k") == "Return":
+        e = st["expr"].get("expr")
+    if e is None or e.get("k") != "Call" or e["func"].get("k") != "Path":
+        return None
+    name = e["func"]["path"].split("::")[-1]
+    g = repo.fn(f"{fn.module}::{name}")
+    if g is None and fn.self_ty:
+        g = repo.fn(f"{fn.module}::{fn.self_ty}::{name}")
+    if g is None or g is fn or len(g.params) != len(e["args"]):
+        return None
+    known = {}
+    names = {p["name"] for p in fn.params if p.get("name")}
+    for p, a in zip(g.params, e["args"]):
+        x = a
+        while x.get("k") in ("Ref", "Unary", "Paren") or (x.get("k") == "MethodCall" and x["method"] in TRANSPARENT_METHODS and not x["args"]):
+            x = x.get("expr") or x.get("recv")
+            if x is None:
+                return None
+        if x.get("k") == "Lit":
+            v = x.get("v")
+            known[p["name"]] = v
+        elif x.get("k") == "Path" and x["path"] in names:
+            pass
+        else:
+            return None
+    return g, known
+
+
+def decide(cond, known):
+    """Truth value of a condition that is a parameter with a known literal value (or its negation); None when not decidable."""
+    if cond.get("k") == "Paren":
+        return decide(cond["expr"], known)
+    if cond.get("k") == "Unary" and cond.get("op") == "!":
+        v = decide(cond["expr"], known)
+        return None if v is None else (not v)
+    if cond.get("k") == "Path" and cond["path"] in known and isinstance(known[cond["path"]], bool):
+        return known[cond["path"]]
+    return None
+
+
+def live_walk(n, known):
+    """walk(), except that an `if` whose condition is decided by `known` contributes only its live branch."""
+    stack = [n]
+    while stack:
+        x = stack.pop()
+        if isinstance(x, dict):
+            if x.get("k") == "If" and known:
+                v = decide(x["cond"], known)
+                if v is not None:
+                    yield x
+                    live = x["then"] if v else x.get("else")
+                    if live is not None:
+                        stack.append(live)
+                    continue
+            if "k" in x:
+                yield x
+            for v in reversed(list(x.values())):
+                if isinstance(v, (dict, list)):
+                    stack.append(v)
+        elif isinstance(x, list):
+            for v in reversed(x):
+                if isinstance(v, (dict, list)):
+                    stack.append(v)
